@@ -29,6 +29,10 @@ ISA['operand_sets']['spxi'] = {'operand_values': {
 ISA['instructions']['ldz'] = {'bytecode': {'value': 0xD, 'size': 4}, 'operands': {'count': 1, 'operand_sets': {'list': ['spxi']}}}
 ISA['instructions']['ldq'] = {'bytecode': {'value': 0xC, 'size': 4}, 'operands': {'count': 1, 'operand_sets': {'list': ['idx']}}}
 
+# macros are invoked like instructions: anywhere on a line that holds several statements
+ISA['macros'] = {'push2': [{'operands': {'count': 1, 'operand_sets': {'list': ['imm']}}, 'instructions': ['n12 @ARG(0)', 'nop']}],
+                 'swp': [{'instructions': ['push a', 'push b']}]}
+
 # statement = (label or None, head or None, [operands], is_instruction)
 # operand = str | ('reg', name) | ('ireg', name, offset) | ('ind', text)
 CATALOGUE = [
@@ -58,6 +62,10 @@ CATALOGUE = [
     ('e', '.byte', ['"the: e: end"'], False),
     ('pth', '.cstr', ['"C:\\\\"'], False),           # the string ends in an escaped backslash: C:\\ 
     (None, '.byte', ['"q\\\\"'], False),
+    # macro invocations (joined with other statements on one line like any instruction)
+    (None, 'push2', ['5'], True),
+    (None, 'swp', [], True),
+    ('mm', 'push2', ['lab+1'], True),
     # a literal delimited by one kind of quote that contains the other kind
     ('ap', '.cstr', ['"it\'s"'], False),
     (None, 'ldi', [('reg', 'a'), "'\"'"], True),
@@ -236,7 +244,7 @@ def meta(tier):
     q = tier == 'quick'
     return {
         'rule': 'base programs (plus programs about local regions, preprocessor lines, and statements that differ only in the letter case of a label or character literal): header + every single statement and every ordered pair (thorough: triples of the first 10) of a '
-                '29-statement catalogue (every instruction form of the probe ISA, data lines, labelled statements, an #include, .org, .align and #define line, operands that look '
+                '32-statement catalogue (incl. macro invocations) (every instruction form of the probe ISA, data lines, labelled statements, an #include, .org, .align and #define line, operands that look '
                 'like mnemonics or registers: label nop_x, constant A1) + footer; rewrites: for each kind (mnemonic case, register case, '
                 'token separator, comma spacing, bracket padding, indentation, blank lines, comments incl. ones containing a mnemonic '
                 'and a quote, label on its own line, instructions joined on one line) and each variant of the kind, every subset of the '
